@@ -1,38 +1,63 @@
+// extract: regenerates lean/HcModel/Generated/<Target>.lean from the working tree of brutella/hc.
+//
+//	extract -repo <hc checkout> -out <…/lean/HcModel/Generated> -verif <verif dir> <target>…
+//
+// Targets are registered in `targets`; ./check passes the ones listed for the property in generated_map.json.
+// The harness module already replaces github.com/brutella/hc by the checkout (go.mod written by ./check),
+// and the extractor is run with the harness directory as working directory.
 package main
-
-// extract — the translator: regenerates /verif/lean/HcModel/Generated/<Target>.lean from /repo's working tree.
-// Usage: extract -repo /repo -out /verif/lean/HcModel/Generated -verif /verif <Target>...
-// Each target lives in its own file and registers itself in `targets`.
 
 import (
 	"flag"
 	"fmt"
+	"io/ioutil"
 	"os"
 	"path/filepath"
+	"sort"
 )
 
 type env struct {
-	Repo, Out, Verif string
+	repo, out, verif string
 }
 
-var targets = map[string]func(e env) error{}
+var targets = map[string]func(e *env) (string, error){}
 
 func main() {
-	repo := flag.String("repo", "/repo", "repository under test")
-	out := flag.String("out", "/verif/lean/HcModel/Generated", "output directory for generated Lean files")
-	verif := flag.String("verif", "/verif", "verification directory (scratch space under <verif>/.scratch)")
+	repo := flag.String("repo", "/repo", "checkout of brutella/hc")
+	out := flag.String("out", "", "directory of the generated Lean files")
+	verif := flag.String("verif", "/verif", "verification directory (scratch space below .scratch)")
 	flag.Parse()
-	e := env{*repo, *out, *verif}
-	os.MkdirAll(e.Out, 0755)
+	if *out == "" {
+		*out = filepath.Join(*verif, "lean", "HcModel", "Generated")
+	}
+	e := &env{*repo, *out, *verif}
+	if flag.NArg() == 0 {
+		var ns []string
+		for n := range targets {
+			ns = append(ns, n)
+		}
+		sort.Strings(ns)
+		fmt.Println("targets:", ns)
+		return
+	}
+	os.MkdirAll(*out, 0755)
 	for _, t := range flag.Args() {
-		f, ok := targets[t]
+		fn, ok := targets[t]
 		if !ok {
 			fmt.Fprintf(os.Stderr, "extract: unknown target %q\n", t)
 			os.Exit(2)
 		}
-		// delete the stale file first: a failing extraction must not leave an old table behind
-		os.Remove(filepath.Join(e.Out, t+".lean"))
-		if err := f(e); err != nil {
+		dst := filepath.Join(*out, t+".lean")
+		src, err := fn(e)
+		if err != nil {
+			os.Remove(dst) // never leave a stale table behind
+			fmt.Fprintf(os.Stderr, "extract %s: %v\n", t, err)
+			os.Exit(1)
+		}
+		if old, err := ioutil.ReadFile(dst); err == nil && string(old) == src {
+			continue // unchanged: keep the time stamp so lake does not rebuild
+		}
+		if err := ioutil.WriteFile(dst, []byte(src), 0644); err != nil {
 			fmt.Fprintf(os.Stderr, "extract %s: %v\n", t, err)
 			os.Exit(1)
 		}
